@@ -43,6 +43,7 @@ def op_corpus():
         ops.append(['statmode', p, False])
         ops.append(['os.access', p, 0])
         ops.append(['read', p])
+        ops.append(['readtext', p])
     for p in ['new', 'new/', '/a/d', '/a/d/f', 'd/l', 'd/dl', 'd/ld/new', 'missing/new', 'd/f/new', '/v/new', '/a/lv/new', 'n' * 256, '']:
         ops.append(['os.mkdir', p])
         ops.append(['os.mkdir', p, 0o700])
